@@ -1,6 +1,6 @@
 PROPERTY = "C12"
 LEVEL = "proof"
-LEAN_MODULES = ["CifModel.Props.C12", "CifModel.Lemmas.ParserTop", "CifModel.Props.C12Lex", "CifModel.Props.C12Scan",
+LEAN_MODULES = ["CifModel.Props.C12", "CifModel.Lemmas.ParserTop", "CifModel.Props.C12Lex", "CifModel.Props.C12Scan", "CifModel.Props.ReviewC12",
                 "CifModel.Lemmas.ParserReach", "CifModel.Lemmas.DefectChars", "CifModel.Props.C12Chars"]
 REQUIRED = ["CifModel.C12_clean", "CifModel.C12_first_report_is_policy_free", "CifModel.C12_missing_value_instance",
             "CifModel.C12_unexpected_value_instance", "CifModel.C12_dup_scalar_instance", "CifModel.C12_dup_loop_header_instance",
